@@ -17,7 +17,7 @@ def lnTail (c : Ctx) (ed : ED) (tmp1 resAdjust : Dec) (tape : Tape) : Option (Ou
   let f := ed.step tmp1 (fun k => addOp k tmp1 resAdjust false)
   if f.1.failed then some (failOut f.1.errOf, tape) else
   let rr := ctxRound c f.2
-  let res := rr.2 ||| cInexact
+  let res := rr.2 ||| cInexact ||| cRounded
   some ({ d := rr.1, fl := res, err := goError c.traps res }, tape)
 
 def lnFinish (c : Ctx) (body : Option (ED × Sum ErrKind Dec × Tape)) (resAdjust : Dec) : Option (Out × Tape) :=
